@@ -205,7 +205,7 @@ def spell(rng, spec, asg, defaults, fixed=0):
     return args, dict(items)
 
 
-def mutate(rng, spec, asg, pool, slots=None, typed_pair=False, fixed=0):
+def mutate(rng, spec, asg, pool, slots=None, typed_pair=False, fixed=0, near=False):
     """copy of asg with exactly one parameter slot changed; returns (new, slot) or None"""
     import copy
     new = {'pos': dict(asg['pos']), 'var': list(asg['var']), 'kwonly': dict(asg['kwonly']),
@@ -227,6 +227,8 @@ def mutate(rng, spec, asg, pool, slots=None, typed_pair=False, fixed=0):
         val = rng.choice(opts)
     else:
         opts = [v for v in pool if _ne(v, old)]
+        if near and isinstance(old, float) and rng.random() < 0.7:
+            opts = [old + d for d in (1e-4, -1e-4, 0.004, -0.004, 0.04, -0.04, 0.4, 4.0, 40.0)]
         if not opts:
             return None
         val = rng.choice(opts)
@@ -250,8 +252,10 @@ def gen_ignore(rng, spec, kind):
     for n in names:
         if rng.random() < 0.3:
             ign.append(n)
+    # positional indices are not generated for methods: whether index 0 is the instance or the
+    # first real parameter once 'self' is ignored is not fixed by the statement
     for i in range(len(names) + (2 if spec['var'] else 0)):
-        if rng.random() < 0.15:
+        if kind != 'method' and rng.random() < 0.15:
             ign.append(i)
     if spec['var'] and rng.random() < 0.4:
         ign.append('*')
@@ -268,9 +272,10 @@ def gen_ignore(rng, spec, kind):
     return ign
 
 
-def ignored_slots(spec, ign, kind):
-    """independent reading of the ignore specification -> set of slots of an assignment"""
-    names = (['self'] if kind == 'method' else []) + spec_names(spec)
+def ignored_slots(spec, ign, kind, fixed=0):
+    """independent reading of the ignore specification -> set of slots of an assignment
+    (for a partial, positional indices count the positionals of the call as the user makes it)"""
+    names = (['self'] if kind == 'method' else []) + spec_names(spec)[fixed:]
     out = set()
     for i in ign:
         if isinstance(i, str) and i not in ('*', '**'):
@@ -501,6 +506,17 @@ def _keys(J, tgt, f, kg, args, kwds):
     return (k1, k2), None
 
 
+def canon_repr(bound):
+    """order-independent printable form of a bound-argument map (types visible)"""
+    out = []
+    for k in sorted(bound):
+        v = bound[k]
+        if isinstance(v, dict):
+            v = sorted(v.items(), key=lambda kv: repr(kv[0]))
+        out.append((k, repr(v)))
+    return repr(out)
+
+
 def _same(a, b):
     try:
         return bool(a == b)
@@ -537,9 +553,13 @@ def nonflat_order_mech(tgt, case, c1, c2):
 
 
 def judge_equiv(J, tgt, f, kg, rng, spec, asg, fixed):
-    case = J.case
     c1 = spell(rng, spec, asg, tgt.defaults, fixed)
     c2 = spell(rng, spec, asg, tgt.defaults, fixed)
+    check_equiv(J, tgt, f, kg, c1, c2)
+
+
+def check_equiv(J, tgt, f, kg, c1, c2):
+    case = J.case
     b1, b2 = _call_ok(tgt, *c1), _call_ok(tgt, *c2)
     if b1 is None or b2 is None or not _same(b1, b2):
         J.note('oracle_dropped')
@@ -578,22 +598,55 @@ def judge_equiv(J, tgt, f, kg, rng, spec, asg, fixed):
 def judge_distinct(J, tgt, f, kg, rng, spec, asg, fixed, pool):
     case = J.case
     typed_leg = case['keymap']['typed'] and rng.random() < 0.4
+    if typed_leg:
+        # arguments that have an ==-equal partner of another type
+        asg = assignment(rng, spec, [0, 1, 2, 1.0, 2.0, 0.0, True, False, 'a'])
+        for n in list(asg['pos']):
+            if n in spec.get('_pk', ()) or n in spec_names(spec)[:fixed]:
+                del asg['pos'][n]
+        asg['defaulted'] = [n for n in asg['defaulted'] if n not in spec.get('_pk', ())]
     m = mutate(rng, spec, asg, pool, typed_pair=typed_leg, fixed=fixed)
+    if typed_leg and rng.random() < 0.4:
+        # type swap across two slots: (.., 1, .., 2.0) vs (.., 1.0, .., 2) - the same multiset of
+        # types, so only a key that keeps each type aligned with its argument separates them
+        slots2 = [('pos', n) for n in asg['pos']] + [('kwonly', n) for n in asg['kwonly']] + \
+                 [('kw', n) for n in asg['kw']] + [('var', i) for i in range(len(asg['var']))]
+        if len(slots2) >= 2:
+            import copy
+            s1, s2 = rng.sample(slots2, 2)
+            (p1, p2) = rng.sample(TYPED_PAIRS, 2)
+            asg = copy.deepcopy(asg)
+            asg2 = copy.deepcopy(asg)
+            asg[s1[0]][s1[1]], asg[s2[0]][s2[1]] = p1[0], p2[1]
+            asg2[s1[0]][s1[1]], asg2[s2[0]][s2[1]] = p1[1], p2[0]
+            m = (asg2, (s1, s2))
+            J.note('c10_type_swap_pairs')
     if m is None:
         J.note('c10_no_mutation')
         return
     asg2, slot = m
-    # same spelling shape for both (canonicalisation is C09's subject)
+    if typed_leg and rng.random() < 0.3:
+        m2 = mutate(rng, spec, asg2, pool, typed_pair=True, fixed=fixed)   # e.g. (1, 2.0) vs (1.0, 2)
+        if m2 is not None:
+            asg2, slot = m2[0], (slot, m2[1])
+    # usually the same spelling shape for both (canonicalisation is C09's subject); sometimes an
+    # independent spelling, because a key must discriminate however the call is written
     st = rng.getstate()
     c1 = spell(rng, spec, asg, tgt.defaults, fixed)
-    rng.setstate(st)
+    if rng.random() < 0.6:
+        rng.setstate(st)
     c2 = spell(rng, spec, asg2, tgt.defaults, fixed)
+    check_distinct(J, tgt, f, kg, c1, c2, slot, typed_leg)
+
+
+def check_distinct(J, tgt, f, kg, c1, c2, slot, typed_leg):
+    case = J.case
     b1, b2 = _call_ok(tgt, *c1), _call_ok(tgt, *c2)
     if b1 is None or b2 is None:
         J.note('oracle_dropped')
         return
     if typed_leg:
-        if not _same(b1, b2) or repr(b1) == repr(b2):
+        if not _same(b1, b2) or canon_repr(b1) == canon_repr(b2):
             J.note('oracle_dropped')
             return
     elif _same(b1, b2):
@@ -654,7 +707,7 @@ def bare_scalar_mech(tgt, case, c1, c2):
 def judge_ignore(J, tgt, f, kg, rng, spec, asg, fixed, pool):
     case = J.case
     ign = case.get('ignore') or []
-    slots, star, dstar = ignored_slots(spec, ign, tgt.kind)
+    slots, star, dstar = ignored_slots(spec, ign, tgt.kind, fixed)
     # (1) calls differing only in ignored slots
     cands = set(slots)
     if star:
@@ -703,7 +756,8 @@ def judge_ignore(J, tgt, f, kg, rng, spec, asg, fixed, pool):
                     okk = False
                     J.bad('C11', 'ignored-argument-changed-key',
                           '%s: ignore=%r; calls %s and %s differ only in ignored %r but keys differ: %s vs %s'
-                          % (which, ign, srepr(c1), srepr(c2), slot, srepr(x)[:120], srepr(y)[:120]))
+                          % (which, ign, srepr(c1), srepr(c2), slot, srepr(x)[:120], srepr(y)[:120]),
+                          mech=nonflat_order_mech(tgt, case, c1, c2))
                     break
             if okk:
                 try:
@@ -776,7 +830,7 @@ def judge_round(J, tgt, f, kg, rng, spec, asg, fixed):
     hostile = [dec(h) for h in ROUND_HOSTILE] if gen.key_kind(case['keymap']) not in ('raw', 'int') else []
     asg1 = assignment(rng, spec, pool + hostile)
     # a partner that differs in one slot by a nearby / far float (or is identical)
-    m = mutate(rng, spec, asg1, pool, fixed=fixed)
+    m = mutate(rng, spec, asg1, pool, fixed=fixed, near=True)
     if m is None:
         return
     asg2, slot = m
@@ -941,6 +995,80 @@ def judge_standalone(J, rng):
                   % (name, tol, srepr(got)[:200], srepr((args, kwds))[:200], srepr(want)[:200]), mech=mech)
 
 
+def _spec(req=(), dfl=(), var=False, kwonly=(), kw=False):
+    return {'req': list(req), 'def': [list(x) for x in dfl], 'var': var,
+            'kwonly': [list(x) for x in kwonly], 'kw': kw}
+
+
+def _km(cls, type=None, flat=True, typed=False, sentinel=False):
+    return {'cls': cls, 'type': type, 'flat': flat, 'typed': typed, 'sentinel': sentinel}
+
+
+# hand-written witnesses of the recorded findings and of the anchors' mechanisms: run first on every
+# shard 0, through the same judges as the generated cases (a repaired defect simply passes)
+DIRECTED = {
+    'C09': [({'spec': _spec(req=['a'], dfl=[['d', 2], ['e', 3]]), 'kind': 'func',
+              'keymap': _km('stringmap', flat=False), 'deco': 'lru', 'safe': True},
+             'equiv', ([1], {'d': 2}), ([], {'a': 1, 'd': 2}))],
+    'C10': [({'spec': _spec(var=True), 'kind': 'func', 'keymap': _km('stringmap', sentinel=True),
+              'deco': 'inf', 'safe': False}, 'distinct', ([1], {}), (['1'], {})),
+            ],
+    'C11': [({'spec': _spec(req=['a'], kwonly=[['k', True, 1]], kw=True), 'kind': 'func',
+              'keymap': _km('keymap'), 'deco': 'inf', 'safe': False, 'ignore': ['**']},
+             'distinct11', ([1], {'k': 1}), ([1], {'k': 2}))],
+    'C12': [({'spec': _spec(req=['a']), 'kind': 'func', 'keymap': _km('stringmap'), 'deco': 'inf',
+              'safe': False, 'tol': 1, 'deep': True}, 'round', ([{'__d__': [[1, 1.26]]}], {}), ([{'__d__': [[1, 1.24]]}], {})),
+            ({'spec': _spec(req=['a']), 'kind': 'func', 'keymap': _km('stringmap'), 'deco': 'inf',
+              'safe': False, 'tol': 1, 'deep': True}, 'round', ([{'__r__': [0, 3, 1]}], {}), ([{'__r__': [0, 3, 1]}], {}))],
+}
+
+
+def run_directed(prop):
+    out = []
+    for case, rel, c1, c2 in DIRECTED.get(prop, []):
+        case = dict(case); case['prop'] = prop; case['seed'] = 0; case['directed'] = True
+        J = Judge(case)
+        tgt = Target(case['spec'], case['kind'], case.get('partial'))
+        f = tgt.decorate(make_deco(case))
+        kg = make_keygen(case)(tgt.plain)
+        c1 = (dec(c1[0]), dec(c1[1])); c2 = (dec(c2[0]), dec(c2[1]))
+        if rel == 'equiv':
+            check_equiv(J, tgt, f, kg, c1, c2)
+        elif rel in ('distinct', 'typed'):
+            check_distinct(J, tgt, f, kg, c1, c2, 'directed', rel == 'typed')
+        elif rel == 'distinct11':
+            ks1, _ = _keys(J, tgt, f, kg, *c1)
+            ks2, _ = _keys(J, tgt, f, kg, *c2)
+            J.note('c11_discriminating_pairs')
+            if ks1 is not None and ks2 is not None and _same(ks1[0], ks2[0]):
+                J.bad('C11', 'non-ignored-argument-merged',
+                      'ignore=%r: calls %s and %s differ in non-ignored keyword-only k but share a key %s'
+                      % (case['ignore'], srepr(c1), srepr(c2), srepr(ks1[0])[:100]),
+                      mech=kwonly_dstar_mech(case['spec'], case['ignore'], ('kwonly', 'k')))
+        elif rel == 'round':
+            for c in (c1, c2):
+                try:
+                    tgt.call_through(f, *c)
+                    J.note('c12_receive_checks')
+                except Exception as e:
+                    J.bad('C12', 'rounding-made-call-fail',
+                          'tol=%r deep=%r: call %s raised %s: %s' % (case['tol'], case['deep'], srepr(c),
+                                                                   type(e).__name__, str(e)[:150]),
+                          mech=deep_container_mech(c, case['tol'], case['deep']))
+        J.note('directed_cases')
+        out.append(J)
+    if prop == 'C12':
+        from klepto import rounding
+        J = Judge({'directed': True, 'prop': 'C12', 'what': "shallow_round(1)('abc', 1.26)"})
+        got = rounding.shallow_round(1)(lambda *a, **k: (a, k))('abc', 1.26)
+        J.note('c12_standalone_checks')
+        if got != (('abc', 1.3), {}):
+            J.bad('C12', 'standalone-rounding-wrong', "shallow_round(tol=1) passed %r for ('abc', 1.26)" % (got,),
+                  mech=['shallow-round-mangles-non-sequences'])
+        out.append(J)
+    return out
+
+
 RULES = {
     'C09': 'generated callable x keymap cell in which >=1 pair of *differently spelled* identically-binding calls was keyed and called',
     'C10': 'generated callable x information-preserving keymap cell in which >=1 pair of calls binding unequal values (or ==-equal values of different type under typed=True) was keyed',
@@ -958,6 +1086,12 @@ def run_shard(prop, tier, seed, shard, nshards, opts):
     from kv import reach
     mon = reach.Reach()
     mon.start()
+    if shard == 0:
+        for J in run_directed(prop):
+            res['cases'] += 1
+            for k, v in J.cnt.items():
+                res['counters'][k] = res['counters'].get(k, 0) + v
+            res['violations'].extend(J.viol)
     i = shard
     while i < n_total and time.time() - t0 < budget:
         rng = gen.make_rng('keymon', prop, seed, i)
@@ -986,5 +1120,7 @@ def run_shard(prop, tier, seed, shard, nshards, opts):
 
 
 def replay(v, prop):
+    if v['case'].get('directed'):
+        return [x for J in run_directed(prop) for x in J.viol if x['property'] == prop]
     J = run_case(v['case'], prop)
     return [x for x in J.viol if x['property'] == prop]
